@@ -43,8 +43,9 @@ def run(ctx):
     props_ok, failing, log = ctx.props()
     ctx.build(["Model/ChanSeq.vo", "Spec/Ref9112.vo"])
     if props_ok:
-        okf, outf = vcommon.coq_compile_capture("Findings/C01_witnesses.v")
-        if not okf:
+        with vcommon.Lock("coq"):
+            okf, outf = vcommon.coq_compile_capture("Findings/C01_witnesses.v")
+        if not okf and "inconsistent assumptions" not in outf:
             ctx.notes.append("Findings/C01_witnesses.v no longer compiles (a finding stopped reproducing in the model?): " + outf[-400:])
     rng = ctx.rng
 
